@@ -116,7 +116,12 @@ P["C15"] = ("proof", "PARTIAL. Proved over Model/Marker.v (every fuel, set order
             "same-kind child for arbitrary inputs, union()'s raw candidate, union_simplify / intersect_simplify (where the property is violated on the unchanged tree: known finding). Those are decided by the normal-form checker of the direct oracle "
             "(every result of parse/&/|/only/exclude, call-site attribution) and by the S-mark correspondence, which compares result SHAPES with the model.",
             TB_MARKER, "machine-checked proof in Coq (shape of of() results) + structural correspondence + normal-form oracle", "5")
-for k in ("C02", "C04", "C06", "C17", "C03", "C12", "C11", "C07", "C15"):
+P["C10"] = ("proof", "PARTIAL (meaning, not text). C10_reach_sound: every callee family reachable by cold computation, further normaliser steps and cache hits of cnf/dnf with a ==-equal argument is meaning preserving (step_sound: one step of the "
+            "normaliser is sound for ANY sound callees; == is a congruence for evaluation and well-formedness); C10_meaning / C10_history_independent: a & b and a | b computed under ANY history mean the conjunction / disjunction of their operands, so a warm "
+            "and a cold run agree in every environment. NOT proved, and false on the unchanged tree (known finding value-order-text-only): history independence of the rendered text - decided by the direct oracle, which compares text and truth table of "
+            "the probe after a random history with the same probe run first in a fresh interpreter.",
+            TB_MARKER + "; Model/MarkerOpen.v generated from Model/Marker.v (level_S by reflexivity); memoisation modelled as the inductive family `reach`", "machine-checked proof in Coq (semantic transparency of memoisation) + differential oracle warm vs fresh interpreter (text)", "5")
+for k in ("C02", "C04", "C06", "C17", "C03", "C12", "C11", "C07", "C15", "C10"):
     ORACLE_ONLY.pop(k, None)
 checks = []
 for pid in sorted(set(P) | set(ORACLE_ONLY)):
